@@ -88,9 +88,24 @@ def run_item(item):
         cand = [n for n in functions if level_of(n) and not n.endswith("_id")]
         TARGETS = env.feasible_targets(functions, list(df.columns), data=df, params=params,
                                        candidates=[*env.DEFAULT_TARGETS, *cand, "zu_verst_eink_y_sn", "vorsorgeaufw_y_sn"])
-    T, nodes, roots, dag, fn = env.trace(df, params, functions, TARGETS, rounding=bool(item["k"] % 2))
+    dict_input = item["k"] % 4 == 2 and not item.get("historical") and not item.get("witness")
+    if dict_input:
+        # data as a dict of Series: household id and household-level columns carry the labels of another table (a
+        # permutation of the person-level labels).  Rows are positions: groups are the caller's positional ids.
+        import pandas as pd
+
+        nodes, roots, dag, fn = env.graph(functions, list(df.columns))
+        lab_p, lab_h = np.arange(len(df)), rng.permutation(len(df))
+        data = {c: pd.Series(df[c].to_numpy(), index=lab_h if (c == "hh_id" or c.endswith("_hh")) else lab_p) for c in df.columns}
+        out = env.simulate(data, params, functions, nodes, rounding=False)
+        T = out.reset_index(drop=True).copy()
+        for c in df.columns:
+            if c not in T.columns:
+                T[c] = df[c].to_numpy()
+    else:
+        T, nodes, roots, dag, fn = env.trace(df, params, functions, TARGETS, rounding=bool(item["k"] % 2))
     res = dict(date=item["date"], pop=popgen.digest(df), violations=[], suffixed_nodes=0, groups_checked=0,
-               propagated=0, multi_member_groups={}, nodes=[])
+               propagated=0, multi_member_groups={}, nodes=[], dict_input=int(dict_input))
     bad_nodes = {}
     for t in nodes:
         lvl = level_of(t)
@@ -188,6 +203,7 @@ def summarize(results, tier, seed):
         groups_checked=sum(r["groups_checked"] for r in ok), multi_member_groups_by_level=multi,
         propagated_not_reported=sum(r["propagated"] for r in ok),
         populations=len({r["pop"] for r in ok}), dates=sorted({r["date"] for r in ok}),
+        runs_with_dict_of_series_input_and_foreign_household_labels=sum(r.get("dict_input", 0) for r in ok),
         historical_dates=sorted({r["date"] for r in ok if r["_item"].get("historical")}),
         suffixed_nodes_at_historical_dates=sum(r["suffixed_nodes"] for r in ok if r["_item"].get("historical")),
         second_simulations_with_changed_households=sum(r.get("second_pass_runs", 0) for r in ok),
